@@ -432,8 +432,38 @@ def check_state(col, base, arr, ids, hist):
 # ------------------------------------------------------------------------------------------------
 # driver
 # ------------------------------------------------------------------------------------------------
+def wrap_probe(col, base):
+    """wrapping in a Series with another index selects by LABEL (pandas semantics): GeoSeries(series, index=...), reindex, loc"""
+    import pandas as pd
+    from spatialpandas import GeoSeries
+    n = len(base.elems)
+    labels = [f"L{i}" for i in range(n)]
+    case = {"kind": base.kind, "subtype": base.st, "long": n > 4, "history": [["wrap_probe"]]}
+    order = list(range(n))[::-1][1:] + [None, 0]            # permuted, one label dropped, one unknown label, one at the end
+    new_index = [labels[i] if i is not None else "unknown" for i in order]
+    want = [None if i is None else base.py[i] for i in order]
+    try:
+        src = pd.Series(base.arr, index=labels)
+        forms = {"GeoSeries(series, index=)": lambda: GeoSeries(src, index=new_index),
+                 "GeoSeries(GeoSeries, index=)": lambda: GeoSeries(GeoSeries(base.arr, index=labels), index=new_index),
+                 "reindex": lambda: GeoSeries(base.arr, index=labels).reindex(new_index),
+                 "loc[list]": lambda: GeoSeries(base.arr, index=labels).loc[[l for l in new_index if l != "unknown"]]}
+        for name, fn in forms.items():
+            col.count("evaluations")
+            g = fn()
+            w = want if name != "loc[list]" else [x for x, l in zip(want, new_index) if l != "unknown"]
+            wi = new_index if name != "loc[list]" else [l for l in new_index if l != "unknown"]
+            got = g.array.data.to_pylist()
+            if list(g.index) != wi or got != w:
+                col.violation(f"{base.kind}.wrap_by_label", dict(case, form=name), f"{name} with index {wi}: elements {got} expected {w}")
+    except Exception as ex:
+        col.violation(f"{base.kind}.wrap_by_label.raises", case, f"{type(ex).__name__}: {str(ex)[:200]}")
+
+
 def explore(col, kind, st, depth, full, shard, nshards, scratch, parquet_depth, long=False):
     base = Base(kind, st, long)
+    if shard == 0:
+        wrap_probe(col, base)
     ops_for = ops_for_factory(full, parquet_depth, long)
 
     def key(arr, ids):
@@ -534,6 +564,9 @@ def replay(ctx, case):
     arr, ids = base.arr, list(range(len(base.elems)))
     hist = []
     scratch = ctx.scratch()
+    if case["history"] and case["history"][0] == ["wrap_probe"]:
+        wrap_probe(col, base)
+        return col.violations
     for op in case["history"]:
         op = tuple(tuple(x) if isinstance(x, list) else x for x in op)
         want = model_apply(ids, op, len(base.elems))
